@@ -85,7 +85,7 @@ func valueFor(it *ref.Item, name string, r *rng.R) (ref.Val, bool) {
 			if x.AVar == name {
 				n := x.AMin
 				if x.AMax > x.AMin {
-					n += r.Intn(x.AMax - x.AMin + 1)
+					n += r.Intn(spanCap(x.AMax-x.AMin) + 1)
 				}
 				s := make([]byte, n)
 				for i := range s {
@@ -195,13 +195,21 @@ func c10Eval(c *ctx, cs c10Case) {
 	}()
 	if len(cs.Step1) == 0 {
 		var got ast.ItemNode
-		o := real.Try(func() { got = tpl.FillVariables(countsRaw(cs.Counts)) })
+		shared := countsRaw(cs.Counts) // one map object for this call and the next (the caller keeps and reuses its map)
+		o := real.Try(func() { got = tpl.FillVariables(shared) })
 		if o.Panicked {
 			c.Violation("C10/expansion-refused", fmt.Sprintf("%s; template %s counts %v", o, clipS(ref.Print(cs.Tpl)), cs.Counts), cs)
 			return
 		}
 		want := ref.Expand(cs.Tpl, cs.Counts)
 		c.Class("one-step")
+		{
+			var again ast.ItemNode
+			if o := real.Try(func() { again = tpl.FillVariables(shared) }); o.Panicked || real.SnapItem(again).Diff(real.SnapItem(got)) != "" {
+				c.Violation("C10/second-expansion-from-the-same-map-differs", fmt.Sprintf("template %s counts %v: the same map object passed again gives another result (%s): %s", clipS(ref.Print(cs.Tpl)), cs.Counts, o, clipS(real.Str(again))), cs)
+				return
+			}
+		}
 		// the same expansion asked again gives the same answer (nothing may depend on map iteration order)
 		if rng.HashStr(key)%4 == 0 {
 			for rep := 0; rep < 2; rep++ {
@@ -260,6 +268,45 @@ func c10Eval(c *ctx, cs c10Case) {
 			}
 			if len(s2.Vars) != len(vars)-1 {
 				c.Violation("C10/individual-fill-variable-count", fmt.Sprintf("filling %q: %d -> %d variables", name, len(vars), len(s2.Vars)), cs)
+				return
+			}
+		}
+		// counts and values for the names they generate in ONE call, on the item and through a message around it
+		if filledAny && len(pick) > 0 {
+			all := countsRaw(cs.Counts)
+			vals := map[string]ref.Val{}
+			for _, name := range pick {
+				if val, found := valueFor(want, name, r); found {
+					all[name] = rawOf(val)
+					vals[name] = val
+				}
+			}
+			all2 := map[string]interface{}{}
+			for k, v := range all {
+				all2[k] = v
+			}
+			var g3 ast.ItemNode
+			if o := real.Try(func() { g3 = tpl.FillVariables(all) }); o.Panicked {
+				c.Violation("C10/counts-and-generated-names-in-one-call/refused", fmt.Sprintf("%s; template %s values %v", o, clipS(ref.Print(cs.Tpl)), all), cs)
+				return
+			}
+			w3, _ := ref.Fill(want, vals)
+			c.Class("counts-and-generated-names-in-one-call")
+			if d := ref.MatchPrinted(real.SnapItem(g3).Str, ref.PrintSegs(w3)); d != "" {
+				c.Violation("C10/counts-and-generated-names-in-one-call/item", fmt.Sprintf("%s; template %s", d, clipS(ref.Print(cs.Tpl))), cs)
+				return
+			}
+			var m3, mw *ast.DataMessage
+			o3 := real.Try(func() {
+				m3 = ast.NewDataMessage("tmpl", 1, 1, 0, "H->E", tpl).FillVariables(all2)
+				mw = ast.NewDataMessage("tmpl", 1, 1, 0, "H->E", g3)
+			})
+			if o3.Panicked {
+				c.Violation("C10/counts-and-generated-names-in-one-call/message-refused", fmt.Sprintf("%s; template %s", o3, clipS(ref.Print(cs.Tpl))), cs)
+				return
+			}
+			if d := real.Snap(m3).Diff(real.Snap(mw)); d != "" {
+				c.Violation("C10/counts-and-generated-names-in-one-call/message", fmt.Sprintf("the fill through a message differs from the fill of its item: %s; template %s", d, clipS(ref.Print(cs.Tpl))), cs)
 				return
 			}
 		}
@@ -600,7 +647,7 @@ func runC10(c *ctx) {
 		c.Class("expansion-after-a-refused-fill")
 		c10Eval(c, c10Case{Tpl: probe, Counts: map[string]int{"...": 1 + rep}})
 	}
-	c.Required = []string{"array-like-names-in-a-repeated-group", "expansion-after-a-refused-fill", "many-remaining-ellipses", "one-step", "two-step", "individual-fill", "random-template", "nothing-to-expand"}
+	c.Required = []string{"array-like-names-in-a-repeated-group", "expansion-after-a-refused-fill", "many-remaining-ellipses", "one-step", "two-step", "individual-fill", "counts-and-generated-names-in-one-call", "random-template", "nothing-to-expand"}
 }
 
 func replayC10(c *ctx, raw json.RawMessage) {
